@@ -101,6 +101,11 @@ class E2Check:
         return rc, summary
 
     def run(self):
+        from xmlsem import anchors
+        bad = anchors.check()
+        if bad:
+            print(f"CHECKER-ERROR property={self.prop} xmlsem disagrees with its hand-computed anchor vectors: {bad[:3]}")
+            return 3
         crc, closure = self.run_closure()
         if crc == 3:
             return 3
